@@ -462,3 +462,211 @@ def run_outparam_tested(prog, ctx=None):
                        "" if ok else "%s is read (line %s) while the result of %s() may be %s; for results in %s the callee does not write it" % (
                            uninit[vid], bad[0].get("l"), cs[0].qn, bad[1], unw), {"unwritten_on": unw.tojson()})
     return res
+
+
+def run_containerof(prog, ctx=None):
+    """CONTAINEROF: a pointer to an embedded interface object is turned into a pointer to the record that embeds it by going back
+    exactly the offset of a member of that type: `(R *)((int8_t *) p - k)` (MPT_baseaddr) needs a member of R at offset k whose
+    type is what p points to; `(R *)(p + c)` / `(R *)(p - c)` in units of *p likewise with k = -c * sizeof(*p)."""
+    res = Result("CONTAINEROF")
+    files = set(ctx.get("files", [])) if ctx and ctx.get("files") else None
+    from .rules_path import funcs_of
+
+    def short(a):
+        return (a or "").replace("mpt::", "").replace("mpt_", "")
+
+    def parents(T, depth=0):
+        """interfaces a C interface record extends: its vtable record starts with the parent's vtable record"""
+        out = set()
+        rec = prog.records.get(T)
+        if not rec or depth > 3:
+            return out
+        for fl in rec["fields"][:1]:
+            FT = rec["unit"].types[fl["t"]] if fl["t"] is not None and fl["t"] >= 0 else {}
+            if fl["n"] == "_vptr" and FT.get("k") == "ptr":
+                V = rec["unit"].types[FT["to"]] if FT.get("to") is not None and FT["to"] >= 0 else {}
+                vrec = prog.records.get(V.get("name")) if V.get("k") == "record" else None
+                for vf in (vrec or {}).get("fields", [])[:1]:
+                    W = vrec["unit"].types[vf["t"]] if vf["t"] is not None and vf["t"] >= 0 else {}
+                    if W.get("k") == "record" and "vptr_" in (W.get("name") or ""):
+                        par = W["name"].split("vptr_", 1)[1]
+                        out.add(par)
+                        out |= parents("mpt_" + par, depth + 1)
+        return out
+
+    def same(a, b):
+        """member type a serves for a pointer to b: the same record, or an interface that extends b"""
+        return short(a) == short(b) or short(b) in {short(x) for x in parents(a)}
+
+    def member_at(R, S, k, depth=0):
+        """name of the (possibly nested) member of record R at byte offset k whose type is S (an interface embedded as the
+        first member of another interface counts: a metatype starts with its convertable part)"""
+        rec = prog.records.get(R)
+        if not rec or depth > 4 or k < 0:
+            return None
+        for bs in rec.get("bases") or []:
+            if same(bs.get("name"), S) and (bs.get("off", 0) or 0) == k:
+                return "<base>"
+        for fl in rec["fields"]:
+            T = rec["unit"].types[fl["t"]] if fl["t"] is not None and fl["t"] >= 0 else {}
+            if T.get("k") != "record" or fl.get("off") is None:
+                continue
+            if fl["off"] == k and same(T.get("name"), S):
+                return fl["n"]
+            if fl["off"] <= k < fl["off"] + (T.get("sz") or 0):
+                m = member_at(T.get("name"), S, k - fl["off"], depth + 1)
+                if m:
+                    return fl["n"] + "." + m
+        return None
+
+    def has_member_of(R, S, depth=0):
+        rec = prog.records.get(R)
+        if not rec or depth > 4:
+            return False
+        for fl in rec["fields"]:
+            T = rec["unit"].types[fl["t"]] if fl["t"] is not None and fl["t"] >= 0 else {}
+            if T.get("k") == "record" and (same(T.get("name"), S) or has_member_of(T.get("name"), S, depth + 1)):
+                return True
+        return False
+
+    for f in funcs_of(prog, files):
+        for b, i, n in f.walk_all():
+            if n.get("k") != "cast" or n.get("ck") != "BitCast":
+                continue
+            T = f.T(n.get("t"))
+            if T.get("k") != "ptr":
+                continue
+            R = f.T(T.get("to"))
+            if R.get("k") != "record":
+                continue
+            r = strip(n["e"], all_casts=True)
+            if not (r.get("k") == "bin" and r.get("op") in ("+", "-") and cval(r["b"]) is not None):
+                continue
+            c = cval(r["b"])
+            # the pointer whose object is embedded: through the byte cast of MPT_baseaddr, or used directly
+            a = r["a"]
+            unit = 1
+            inner = strip(a, all_casts=True)
+            AT = f.T(a.get("t"))
+            if AT.get("k") == "ptr":
+                ET = f.T(AT.get("to"))
+                unit = ET.get("sz", 1) or 1
+            PT = f.T(inner.get("t"))
+            if PT.get("k") != "ptr":
+                continue
+            S = f.T(PT.get("to"))
+            if S.get("k") != "record" or S.get("name") == R.get("name"):
+                continue
+            if not has_member_of(R.get("name"), S.get("name")):
+                continue          # not a container relation (payload behind a header, unrelated cast)
+            k = -(c if r["op"] == "+" else -c) * unit
+            m = member_at(R.get("name"), S.get("name"), k)
+            ok = m is not None
+            res.ob("%s:%s" % (f.qn, norm(show(n, f))[:70]), ok, f, n.get("l", f.line),
+                   "" if ok else "%s: a pointer to %s is taken back %d bytes to a %s, which has no member of that type at offset %d" % (
+                       f.qn, S.get("name"), k, R.get("name"), k), {"member": m, "offset": k})
+            res.count("sites")
+    return res
+
+
+def run_fieldnull(prog, ctx=None):
+    """FIELDNULL (Engler's contradiction, across the methods of one object): a pointer member that one method of an iterator
+    sets to null (the exhausted marker) or tests for null is not dereferenced, nor used in pointer arithmetic, by another method of
+    the same object without a null test of its own that excludes null on the way."""
+    res = Result("FIELDNULL")
+    files = set(ctx.get("files", [])) if ctx and ctx.get("files") else None
+    groups = {}
+    for g, u, rname, slot, fn, qn in vtables(prog):
+        if fn is None or fn.nocfg:
+            continue
+        if files and fn.file not in files:
+            continue
+        groups.setdefault(fn.file, {})[fn.key()] = fn
+    n = 0
+    for file, fns in sorted(groups.items()):
+        fns = sorted(fns.values(), key=lambda f: f.line)
+
+        def fields_of(e):
+            """(field name) for `x->F` where F is a pointer member"""
+            e = strip(e, all_casts=True)
+            if e.get("k") == "mem" and e.get("arrow"):
+                return e.get("f"), e.get("rec")
+            return None, None
+        setnull, tested = {}, {}
+        for f in fns:
+            for b, i, nn in f.walk_all():
+                if nn.get("k") == "bin" and nn.get("op") == "=" and cval(nn["b"]) == 0:
+                    l = strip(nn["a"], lvalue_to_rvalue=False)
+                    if l.get("k") == "mem" and l.get("arrow") and f.T(l.get("t")).get("k") == "ptr":
+                        setnull.setdefault((l.get("rec"), l["f"]), f.name)
+            for bid, blk in f.blocks.items():
+                t = blk.term
+                if t and isinstance(t.get("cond"), dict):
+                    c = strip(t["cond"], all_casts=True)
+                    while c.get("k") == "un" and c.get("op") == "!":
+                        c = strip(c["e"], all_casts=True)
+                    if c.get("k") == "mem" and c.get("arrow") and f.T(c.get("t")).get("k") == "ptr":
+                        tested.setdefault((c.get("rec"), c["f"]), set()).add(f.name)
+        # the marker idiom: one method stores null, at least two methods test for it
+        nullable = {k: "%s sets it to null and %s test it for null" % (setnull[k], ", ".join(sorted(tested[k])))
+                    for k in setnull if len(tested.get(k, ())) >= 2}
+        if not nullable:
+            continue
+        for f in fns:
+            dom = f.dominators()
+            # blocks reached only with F non-null: dominated by a test of F whose null edge does not lead there
+            def guarded(bid, rec, fld):
+                for d in dom[bid]:
+                    D = f.blocks[d]
+                    t = D.term
+                    if not (t and isinstance(t.get("cond"), dict) and len(D.succ) == 2):
+                        continue
+                    c = strip(t["cond"], all_casts=True)
+                    neg = False
+                    while c.get("k") == "un" and c.get("op") == "!":
+                        neg = not neg
+                        c = strip(c["e"], all_casts=True)
+                    if c.get("k") == "bin" and c.get("op") == "=":
+                        c = strip(c["a"], lvalue_to_rvalue=False)
+                    if not (c.get("k") == "mem" and c.get("f") == fld and c.get("rec") == rec):
+                        continue
+                    null_succ = D.succ[0] if neg else D.succ[1]
+                    if null_succ is None or (null_succ != bid and bid not in f.reachable_from(null_succ, avoid={d})):
+                        return True
+                return False
+            for b, i, e in f.elements():
+                for nn in walk_own(e):
+                    uses = []
+                    if nn.get("k") == "un" and nn.get("op") == "*":
+                        uses.append(nn["e"])
+                    elif nn.get("k") == "idx":
+                        uses.append(nn["a"])
+                    elif nn.get("k") == "bin" and nn.get("op") in ("+", "-") and f.T(nn["a"].get("t")).get("k") == "ptr":
+                        uses.append(nn["a"])
+                        if f.T(nn["b"].get("t")).get("k") == "ptr":
+                            uses.append(nn["b"])
+                    elif nn.get("k") == "bin" and nn.get("op") in ("+=", "-=") and f.T(nn["a"].get("t")).get("k") == "ptr":
+                        uses.append(nn["a"])
+                    for u_ in uses:
+                        us = strip(u_, all_casts=True)
+                        if us.get("k") == "mem" and us.get("arrow") and (us.get("rec"), us.get("f")) in nullable:
+                            ok = guarded(b.id, us.get("rec"), us["f"])
+                            if not ok:
+                                # set to something else on the way here (same block before, or a dominating block)
+                                prior = list(f.blocks[b.id].el[:i + 1])
+                                for dd in dom[b.id]:
+                                    if dd != b.id:
+                                        prior.extend(f.blocks[dd].el)
+                                for e2 in prior:
+                                    for m2 in walk_own(e2):
+                                        if m2.get("k") == "bin" and m2.get("op") == "=" and cval(m2["b"]) != 0:
+                                            l2 = strip(m2["a"], lvalue_to_rvalue=False)
+                                            if l2.get("k") == "mem" and l2.get("f") == us["f"] and l2.get("rec") == us.get("rec") and m2 is not nn:
+                                                ok = True
+                            n += 1
+                            res.ob("%s:%s:%s" % (f.qn, us["f"], norm(show(nn, f))[:40]), ok, f, nn.get("l", f.line),
+                                   "" if ok else "%s uses ->%s (%s) although %s, and no test in %s excludes null here" % (
+                                       f.qn, us["f"], norm(show(nn, f))[:40], nullable[(us.get("rec"), us["f"])], f.name))
+    if n < 3:
+        raise Broken("FIELDNULL: only %d uses of nullable pointer members in vtable methods" % n)
+    return res
